@@ -334,7 +334,15 @@ func (m *Monitor) After(g *Gen, line, out string) {
 		}
 		if len(w) > 0 && w[0] == "hash" {
 			if m.lastHash != "" && g.pair[0] != "" && m.lastHashOp != line {
-				if m.lastHash == out && !(admissibleEvent(m.lastHashOp) && admissibleEvent(line)) {
+				if g.pair[1] == "members-order" {
+					// same members in another order: identical identifiers are fine as long as hashing leaves both events
+					// with the same body (the vote record stores the event after it was hashed)
+					if m.lastHash != out {
+						g.stats["C14:member-order-changes-the-identifier"]++
+					} else if a, b := bodyAfterHash(m.lastHashOp), bodyAfterHash(line); a != b {
+						m.report(g, "collision(sse,members-order)", fmt.Sprintf("events %q and %q share the claim identifier %s but are stored and applied as %s and %s", m.lastHashOp, line, out, a, b))
+					}
+				} else if m.lastHash == out && !(admissibleEvent(m.lastHashOp) && admissibleEvent(line)) {
 					g.stats["C14:colliding-pair-with-an-inadmissible-event"]++ // the property is about admissible events
 				} else if m.lastHash == out {
 					m.report(g, "collision("+g.pair[0]+","+g.pair[1]+")", fmt.Sprintf("events %q and %q have the same claim identifier %s", m.lastHashOp, line, out))
@@ -2233,6 +2241,28 @@ func (m *Monitor) checkC07(g *Gen, w []string, out string) {
 	if err := types.ValidateEthereumSignature(digest, s2, addr); err != nil {
 		m.report(g, "v-27-28-form-rejected", err.Error())
 	}
+	// the other recovery id: ecrecover(v^1, r, s) yields one other address A'.  The contract accepts (v, r, s) for A only and
+	// (v^1, r, s) for A' only, so the hub must not accept the genuine signature for A', nor the flipped one for A.
+	{
+		flipped := append([]byte{}, sig...)
+		flipped[64] ^= 1
+		if err := types.ValidateEthereumSignature(digest, flipped, addr); err == nil {
+			m.report(g, "signature-with-the-other-recovery-id-accepted", fmt.Sprintf("(r, s, v^1) accepted for %s; ecrecover yields another address", addr.Hex()))
+		}
+		msg := crypto.Keccak256(append([]byte("\x19Ethereum Signed Message:\n32"), digest...))
+		raw := append([]byte{}, flipped...)
+		if raw[64] >= 27 {
+			raw[64] -= 27
+		}
+		if pub, err := crypto.SigToPub(msg, raw); err == nil {
+			aPrime := crypto.PubkeyToAddress(*pub)
+			if aPrime != addr {
+				if err := types.ValidateEthereumSignature(digest, sig, aPrime); err == nil {
+					m.report(g, "signature-accepted-for-the-address-of-the-other-recovery-id", fmt.Sprintf("the signature of %s over %x verifies for %s as well", addr.Hex(), digest, aPrime.Hex()))
+				}
+			}
+		}
+	}
 	// the contract's ecrecover knows v = 27 and 28 only: no other recovery byte may be accepted by the hub
 	for _, v := range []byte{2, 3, 26, 29, 30, 31, 32, 35, 36, 37, 38, 127, 128, 255} {
 		s3 := append([]byte{}, sig...)
@@ -2703,4 +2733,26 @@ func (m *Monitor) checkC14Vote(g *Gen, w []string) {
 	if !found {
 		m.report(g, "vote-not-counted-under-its-own-claim-identifier", fmt.Sprintf("chain %s nonce %d: validator %s submitted the claim %x (%v); no record under that identifier lists it", chain, ev.GetEventNonce(), val, id, w[3:]))
 	}
+}
+
+// bodyAfterHash: the signer-set members of a `hash sse ...` line as the event carries them after Hash() ran
+// (recordEventVote hashes the event first and then packs it into the vote record).
+func bodyAfterHash(line string) string {
+	w := strings.Fields(line)
+	if len(w) < 2 {
+		return ""
+	}
+	ev, err := parseEvent(w[1:])
+	if err != nil {
+		return ""
+	}
+	ev.Hash()
+	if s, ok := ev.(*types.SignerSetTxExecutedEvent); ok {
+		var l []string
+		for _, mem := range s.Members {
+			l = append(l, fmt.Sprintf("%s:%d", mem.ExternalAddress, mem.Power))
+		}
+		return strings.Join(l, ",")
+	}
+	return ""
 }
